@@ -197,6 +197,17 @@ def handle (w : World) (line : String) : World × String :=
     match (kv toks "t").bind intOf, (kv toks "key").bind unhex, kv toks "ign" with
     | some t, some k, some ign => let (w', r) := step w (.lookup t k (ign = "1")); (w', resStr r)
     | _, _, _ => (w, "bad-op")
+  | "clookttl" :: toks =>
+    match (kv toks "t").bind intOf, (kv toks "key").bind unhex, (kv toks "g").bind natOf with
+    | some t, some k, some g =>
+      let (w', rs) := run w (List.replicate g (.lookup t k false))
+      let ttlOf (r : LRes) : Int :=
+        match r with
+        | .hit s => if s.nAns > 0 then Int.ofNat s.ttl else -1
+        | .miss => -1
+      let ttls : List Int := rs.map ttlOf
+      (w', s!"minttl={ttls.foldl min (ttls.headD 0)} maxttl={ttls.foldl max (ttls.headD 0)}")
+    | _, _, _ => (w, "bad-op")
   | "clook" :: toks =>
     -- g concurrent lookups at the same instant = g lookups in some order
     match (kv toks "t").bind intOf, (kv toks "key").bind unhex, (kv toks "g").bind natOf with
